@@ -11,9 +11,20 @@ from machgen import ARN
 T = engine_props.T
 
 
-def scenarios():
+def scenarios(thorough=False):
     S = explore.Scenario
     out = []
+    if thorough:
+        # the shared engine corpus as well (fan-out failures, nested fan-outs, caught branches, refused transitions, empty
+        # Maps ...): every between-handler crash point of their canonical runs
+        import random
+        for sc in engine_props.corpus(random.Random(0), False):
+            # (machines with an execution time limit are left out: an execution stuck through C04-F1/F2/F4 is then ended
+            # by the limit, States.Timeout, and the exact classification of those findings needs to see it stuck)
+            if sc.extra.get("fail_payload") is None and "TimeoutSeconds" not in sc.machine and not sc.name.startswith("oversize") \
+                    and sc.sm_type == "STANDARD":
+                sc.name = "corpus:" + sc.name
+                out.append(sc)
     out.append(S("seq-task-wait", {"StartAt": "T", "States": {"T": T("f1", Next="W"), "W": {"Type": "Wait", "Seconds": 2, "Next": "P"},
                                                                 "P": {"Type": "Pass", "Result": 1, "ResultPath": "$.p", "End": True}}},
                  {"x": 1}, {"f1": [("ok",)]}, {"f1": 30}))
@@ -60,7 +71,7 @@ def start(scn, share_stores):
 
         def plan(n, payload, _fn=fn, _base=base):
             r = _base(n, payload)
-            d = scn.delays.get(_fn)
+            d = scn.delays.get((_fn, enginerun.canon_payload(payload)), scn.delays.get(_fn))
             if d is not None and r is not None and r.kind != "none":
                 r.delay_ms = d
             return r
@@ -115,6 +126,13 @@ def classify(f, case, impl, model):
     holds a pending request for an event id, and no request with that correlation id was ever published."""
     if not isinstance(impl, dict) or "pending_unsent" not in impl or impl.get("final", {}).get("status") != "RUNNING":
         return False
+    if f.get("classifier") == "nested-join-result-volatile":
+        # C04-F4: before the crash a nested fan-out had completed (its branch events were acknowledged) and handed its
+        # result to the enclosing join's memory, which the crash wiped; nothing is unsent and whatever is still pending
+        # is explained by C04-F2 (replies of the enclosing fan-out's other branches consumed before the crash)
+        pend = set(impl.get("volatile", {}).get("pending", []))
+        return (bool(impl.get("nested_join_events_acked_before_crash")) and impl.get("held_in_fanout")
+                and not impl["pending_unsent"] and pend <= set(impl["pending_reply_consumed"]))
     pend = set(impl.get("volatile", {}).get("pending", []))
     explained = pend <= (set(impl["pending_unsent"]) | set(impl["pending_reply_consumed"]))
     if not explained or not pend:
@@ -152,14 +170,32 @@ def stuck_detail(s, fv):
         return {"final": fv, "pending_for_a_child_that_was_never_started": rekeyed,
                 "children_started": sorted(e for e in started if e.rsplit(":", 1)[0] == rekeyed[0].rsplit(":", 1)[0]),
                 "volatile": v, "crashes": s.crashes}
+    # branch events of a *nested* fan-out (Branch stack of depth >= 2) that the engine acknowledged before a crash: the
+    # nested join had completed, its result living only in the enclosing join's volatile slots (C04-F4)
+    depth = {}
+    for fr in s.broker.log:
+        if fr["op"] == "publish" and str(fr.get("routing_key", "")).startswith("asl_workflow_events"):
+            try:
+                b = json.loads(fr["body"].decode("utf8"))
+                mid = (fr.get("props") or {}).get("message_id")
+                depth[mid] = len(((b.get("context") or {}).get("State") or {}).get("Branch") or [])
+            except Exception:
+                pass
+    nested_acked = []
+    if lost_at:
+        for fr in s.broker.log:
+            if fr["n"] < lost_at[-1] and fr["op"] == "ack" and str(fr.get("queue", "")).startswith("asl_workflow_events") \
+                    and depth.get(fr.get("message_id"), 0) >= 2:
+                nested_acked.append(fr.get("message_id"))
     return {"final": fv, "pending_unsent": unsent, "pending_reply_consumed": reply_consumed,
+            "nested_join_events_acked_before_crash": nested_acked,
             "held_in_fanout": bool(v.get("branch_metadata")), "volatile": v, "crashes": s.crashes}
 
 
 def run(chk):
     quick = chk.tier == "quick"
     chk.lean_stage()
-    scns = scenarios()
+    scns = scenarios(thorough=not quick)
     n_between = n_mid = 0
     for scn in scns:
         for share in (True, False):
@@ -260,7 +296,7 @@ def replay(chk, path):
     with open(path) as f:
         rp = json.load(f)
     c = rp["case"]
-    scn = [x for x in scenarios() if x.name == c["scenario"]][0]
+    scn = [x for x in scenarios(thorough=True) if x.name == c["scenario"]][0]
     s, ea = start(scn, c["store"] == "shared-store")
     cr = c["crash"]
     if cr["kind"] == "between-handlers":
